@@ -33,6 +33,7 @@ type c05Member struct {
 	children   []*c05Member
 	exitEarly  bool // exits right after spawning its children
 	foreground bool // parent waits for it
+	suspended  bool // suspends itself (SIGSTOP) once its children are started
 }
 
 func (m *c05Member) count(excludeNewGroup bool) int {
@@ -63,6 +64,9 @@ func (m *c05Member) describe() string {
 	if m.foreground {
 		flags = append(flags, "fg")
 	}
+	if m.suspended {
+		flags = append(flags, "SIGSTOPped")
+	}
 	s := m.name
 	if len(flags) > 0 {
 		s += "[" + strings.Join(flags, ",") + "]"
@@ -92,6 +96,9 @@ func (m *c05Member) script(isRoot bool) *hScript {
 		s.Steps = append(s.Steps, hStep{Op: "spawn", Child: c.script(false), Wait: c.foreground, NewGroup: c.newGroup})
 	}
 	s.Steps = append(s.Steps, hStep{Op: "mark", Name: m.name})
+	if m.suspended {
+		s.Steps = append(s.Steps, hStep{Op: "stopself"})
+	}
 	if m.exitEarly {
 		s.Steps = append(s.Steps, hStep{Op: "sleep", Ms: 30}, hStep{Op: "exit", Code: 0})
 	} else {
@@ -118,8 +125,9 @@ func genC05Tree(ch *Chooser, name string, depth int) *c05Member {
 		c := genC05Tree(ch, fmt.Sprintf("%s.%d", name, i), depth+1)
 		m.children = append(m.children, c)
 	}
+	m.suspended = ch.Pick("suspended", 7, 1) == 1
 	if len(m.children) > 0 {
-		m.exitEarly = ch.Pick("exitearly", 4, 1) == 1
+		m.exitEarly = !m.suspended && ch.Pick("exitearly", 4, 1) == 1
 		// a foreground child makes the parent wait: only the last child may be in the foreground
 		if !m.exitEarly && ch.Pick("fg", 3, 1) == 1 {
 			m.children[len(m.children)-1].foreground = true
